@@ -135,6 +135,15 @@ func checkC05(c *Ctx, i int, s *Scenario, e *Exec) {
 			c.Violate(i, "trailer-altered-or-misplaced/"+feat, fmt.Sprintf("trailer %s: handler set %q, client found %q in the position its protocol defines (headers: %q)\n%s", k, v, got, hget(o.Headers, k), e.Describe()))
 		}
 	}
+	if s.Req.Form != FConnectUnary && s.Req.Form != FConnectGet {
+		// a trailer belongs in the client protocol's own position only: a left-over "Trailer-"-prefixed header is the
+		// Connect unary position and means nothing to any other client
+		for k := range trailersExpected {
+			if got := hget(o.Headers, "Trailer-"+k); len(got) > 0 {
+				c.Violate(i, "trailer-left-in-connect-unary-position/"+feat, fmt.Sprintf("trailer %s also visible to a %s client as header Trailer-%s=%q\n%s", k, s.Req.Form, k, got, e.Describe()))
+			}
+		}
+	}
 	for k := range o.Trailers {
 		lk := strings.ToLower(k)
 		if _, ok := trailersExpected[textproto.CanonicalMIMEHeaderKey(k)]; ok {
